@@ -158,6 +158,65 @@ func checkC06(r *Run) {
 		}
 	})
 
+	// (d) imports whose bindings are only used as types, under the tsconfig settings that govern their elision.
+	// TypeScript: by default ("remove") the statement disappears; with importsNotUsedAsValues "preserve" or "error"
+	// (error = preserve + a type-checker diagnostic) it stays as a side-effect import; `import type` always disappears.
+	{
+		type shape struct{ typed, keptAs, removedAs string }
+		use := "let x: T = 1 as any; $(x);\n"
+		shapes := []shape{
+			{"import {T} from './side';\n" + use, "import './side';\nlet x = 1; $(x);\n", "let x = 1; $(x);\n"},
+			{"import T from './side';\n" + use, "import './side';\nlet x = 1; $(x);\n", "let x = 1; $(x);\n"},
+			{"import * as N from './side';\nlet x: N.T = 1 as any; $(x);\n", "import './side';\nlet x = 1; $(x);\n", "let x = 1; $(x);\n"},
+			{"import D, {T} from './side';\nlet y: D | T = 1 as any; $(y);\n", "import './side';\nlet y = 1; $(y);\n", "let y = 1; $(y);\n"},
+			{"import {T, v} from './side';\nlet x: T = v; $(x);\n", "import {v} from './side';\nlet x = v; $(x);\n", "import {v} from './side';\nlet x = v; $(x);\n"},
+			{"import {u} from './side';\n$(1);\n", "import './side';\n$(1);\n", "$(1);\n"},
+			{"import type {T} from './side';\n" + use, "let x = 1; $(x);\n", "let x = 1; $(x);\n"},
+			{"import {T} from './side';\nimport {W} from './other';\nfunction f(a: T): W { return a as any; }\n$(f(1));\n", "import './side';\nimport './other';\nfunction f(a) { return a; }\n$(f(1));\n", "function f(a) { return a; }\n$(f(1));\n"},
+		}
+		cfg := func(v string) string {
+			if v == "" {
+				return ""
+			}
+			return `{"compilerOptions": {"importsNotUsedAsValues": "` + v + `"}}`
+		}
+		for si, sh := range shapes {
+			for _, opt := range opts {
+				// minified names depend on the character frequency of the (typed) source text: a listed finding, not the subject here
+				opt.o.MinifyIdentifiers = false
+				outs := map[string]string{}
+				for _, mode := range []string{"", "remove", "preserve", "error"} {
+					out, errs, pan := c06Compile(sh.typed, api.LoaderTS, opt.o, cfg(mode))
+					r.Eval(1)
+					atomic.AddInt64(&st.pairs, 1)
+					if pan != "" || len(errs) > 0 {
+						outs[mode] = "<error: " + pan + strings.Join(errs, "; ") + ">"
+						continue
+					}
+					outs[mode] = out
+				}
+				refKept, _, _ := c06Compile(sh.keptAs, api.LoaderTS, opt.o, "")
+				refRemoved, _, _ := c06Compile(sh.removedAs, api.LoaderTS, opt.o, "")
+				r.Nontrivial(fmt.Sprint("type-only-import", si, opt.name))
+				replay := map[string]interface{}{"typed": sh.typed, "options": opt.name, "outputs_by_importsNotUsedAsValues": outs, "reference_when_kept": refKept, "reference_when_removed": refRemoved}
+				if outs["error"] != outs["preserve"] {
+					r.Violation(fmt.Sprint("erase:type-only-import:error-differs-from-preserve:shape", si), fmt.Sprintf("importsNotUsedAsValues \"error\" and \"preserve\" emit different code for %q (%s)", sh.typed, opt.name), replay)
+				}
+				// (a kept namespace import converted to CommonJS keeps its local name — `var N = require(…)` instead of the
+				// generated `import_side` — an unobservable naming difference, so byte equality is not demanded there)
+				if outs["preserve"] != refKept && !(strings.Contains(sh.typed, "* as") && opt.o.Format == api.FormatCommonJS) {
+					r.Violation(fmt.Sprint("erase:type-only-import:preserve:shape", si), fmt.Sprintf("importsNotUsedAsValues \"preserve\": %q does not compile to the code of its untyped counterpart with the import statement kept (%s)", sh.typed, opt.name), replay)
+				}
+				for _, mode := range []string{"", "remove"} {
+					if outs[mode] != refRemoved {
+						r.Violation(fmt.Sprint("erase:type-only-import:remove:shape", si), fmt.Sprintf("importsNotUsedAsValues %q: %q does not compile to the code of its untyped counterpart without the import (%s)", mode, sh.typed, opt.name), replay)
+					}
+				}
+			}
+		}
+		r.Count("type_only_import_shapes", len(shapes))
+	}
+
 	// (b) js == ts for generated JavaScript
 	njs := r.pick(1500, 30000)
 	parallel(njs, 0, func(i int) {
